@@ -85,7 +85,10 @@ func (s *CFStats) merge(o *CFStats) {
 	}
 }
 
-var cfKinds = []string{"Err", "TypeErr", "ValueErr", "ZeroDivisionErr", "NameErr", "NoPropErr", "AssertionErr", "NotImplementedErr", "SyntaxErr", "FileNotFoundErr"}
+// StopIterErr is included: a callee raising it is an error like any other for the
+// constructs generated here (only the iterator protocol itself consumes it, and no
+// slot sits inside an iterator's next).
+var cfKinds = []string{"Err", "TypeErr", "ValueErr", "ZeroDivisionErr", "NameErr", "NoPropErr", "AssertionErr", "NotImplementedErr", "SyntaxErr", "FileNotFoundErr", "StopIterErr"}
 
 func defaultsOf(p *gen.Program) map[int]harness.Ret {
 	d := map[int]harness.Ret{}
